@@ -40,6 +40,10 @@ type Trace struct {
 	Probes []uint64     `json:"probes,omitempty"`
 	Child  bool         `json:"child,omitempty"`
 	Tty    bool         `json:"tty,omitempty"`
+	// Twice (C20): the loader is asked for the program memory and the code
+	// image once before the judged calls (what a parser returns must not
+	// depend on what it was asked before)
+	Twice bool `json:"twice,omitempty"`
 }
 
 func (t *Trace) Len() int { return len(t.Faults) }
@@ -457,6 +461,7 @@ func (e *Engine) Generate(r *core.Rand, prop string, tier string) core.Trace {
 		}
 	}
 	t.Desc = genDesc(r)
+	t.Twice = prop == "C20" && r.Chance(1, 3)
 	if prop == "C26" && r.Chance(1, 10) {
 		addCompressedSection(r, t.Desc)
 	}
